@@ -139,6 +139,7 @@ pub fn run_check(id: &str, tier: &str) -> i32 {
         "C12" => c12(tier, thorough),
         "C13" => c13(tier, thorough),
         "C18" => c18(tier, thorough),
+        "C14" => c14(tier, thorough),
         _ => {
             eprintln!("unknown check {}", id);
             2
@@ -475,6 +476,106 @@ fn c13(tier: &str, thorough: bool) -> i32 {
     ctx.finish(runs, calls)
 }
 
+fn c14(tier: &str, thorough: bool) -> i32 {
+    use crate::e6::{explore_config, image_for, Policy, ROp, SchedCase, WOp, ALL_ROPS, ALL_WOPS};
+    let ctx = leak(Ctx::new("C14", tier, level_mc(), "e6", &["deadlock", "window"]));
+    crate::watch::start(ctx, std::time::Duration::from_secs(60));
+    ctx.assume("scheduling points at every acquisition request of the crate's single RwLock (cfg(cfb_verif) shim) are sufficient: all shared state is behind that lock");
+    ctx.assume("lock priority is explored under two policies: reader-preferring, and writer-preferring (a waiting writer blocks new readers, as std's futex RwLock on Linux does)");
+    ctx.set_rule("for every driver configuration (writer op sequence x reader op assignment x lock policy x version) all schedules are explored by depth-first search over choice sequences with an iterated preemption bound (unbounded where it completes within the cap); oracles: no deadlock (no enabled thread while one is unfinished), no panic, every reader result equals the sequential result after some whole number of writer handle calls inside the call's window");
+    let mut schedules = 0u64;
+    let mut steps = 0u64;
+    let mut outcomes = 0u64;
+    let mut configs = 0u64;
+    let mut unbounded_configs = 0u64;
+    let versions: Vec<u16> = if thorough { vec![3, 4] } else { vec![4] };
+    for v in versions {
+        let image = image_for(v);
+        for policy in [Policy::WriterPreferring, Policy::ReaderPreferring] {
+            // writer sequences
+            let mut wseqs: Vec<Vec<WOp>> = ALL_WOPS.iter().map(|w| vec![*w]).collect();
+            if thorough {
+                for a in ALL_WOPS {
+                    for b in ALL_WOPS {
+                        wseqs.push(vec![a, b]);
+                    }
+                }
+            } else {
+                wseqs.push(vec![WOp::Shrink, WOp::Grow]);
+                wseqs.push(vec![WOp::Overflow, WOp::WriteSmall]);
+            }
+            // reader assignments: one reader with one op; one reader with two ops; two readers
+            let mut rsets: Vec<Vec<Vec<ROp>>> = ALL_ROPS.iter().map(|r| vec![vec![*r]]).collect();
+            for (a, b) in [(ROp::Walk, ROp::Entry), (ROp::ReadStorage, ROp::Walk), (ROp::Entry, ROp::ReadRoot)] {
+                rsets.push(vec![vec![a, b]]);
+                rsets.push(vec![vec![a], vec![b]]);
+            }
+            if thorough {
+                for a in ALL_ROPS {
+                    for b in ALL_ROPS {
+                        rsets.push(vec![vec![a], vec![b]]);
+                    }
+                }
+                rsets.push(vec![vec![ROp::Walk], vec![ROp::ReadStorage], vec![ROp::Entry]]);
+            }
+            let mut cases: Vec<SchedCase> = Vec::new();
+            for w in &wseqs {
+                for r in &rsets {
+                    cases.push(SchedCase { version: v, policy, writer: w.clone(), readers: r.clone() });
+                }
+            }
+            configs += cases.len() as u64;
+            let cap: u64 = if thorough { 30_000 } else { 400 };
+            use rayon::prelude::*;
+            // per configuration: unbounded first; if the cap is hit fall back to preemption bound 2, then 1
+            let results: Vec<(u64, u64, Option<(Option<usize>, u64, usize)>)> = cases
+                .par_iter()
+                .map(|case| {
+                    let mut sch = 0u64;
+                    let mut stp = 0u64;
+                    let mut done = None;
+                    let bounds: &[Option<usize>] = if thorough { &[None, Some(3), Some(2), Some(1), Some(0)] } else { &[None, Some(1), Some(0)] };
+                    for &bound in bounds {
+                        let st = explore_config(ctx, case, &image, bound, cap);
+                        sch += st.schedules;
+                        stp += st.steps;
+                        if !st.capped {
+                            done = Some((bound, st.schedules, st.outcomes.len()));
+                            break;
+                        }
+                    }
+                    (sch, stp, done)
+                })
+                .collect();
+            for (ci, (sch, stp, done)) in results.into_iter().enumerate() {
+                schedules += sch;
+                steps += stp;
+                match done {
+                    Some((b, n, o)) => {
+                        outcomes += o as u64;
+                        let bname = b.map(|x| x.to_string()).unwrap_or("unbounded".into());
+                        if b.is_none() {
+                            unbounded_configs += 1;
+                        }
+                        if ci % 29 == 0 {
+                            ctx.sample(json!({"config": cases[ci], "completed_preemption_bound": bname, "schedules_at_that_bound": n, "distinct_outcome_vectors": o}));
+                        }
+                        ctx.add(&format!("configs_completed_preemption_bound_{}", bname), 1);
+                    }
+                    None => {
+                        ctx.add("configs_not_completed_even_at_bound_0", 1);
+                        ctx.not_exhaustive("a configuration hit the schedule cap at preemption bound 0");
+                    }
+                }
+            }
+        }
+    }
+    ctx.set("configs", configs);
+    ctx.set("configs_fully_explored_unbounded", unbounded_configs);
+    ctx.set("distinct_outcome_vectors_summed", outcomes);
+    ctx.finish(schedules, steps)
+}
+
 fn c18_histories(v: u16, depth: usize, sizes: &[usize]) -> Vec<History> {
     let a = DataAlpha { paths: vec!["/s", "/d/t"], rewrite: sizes.to_vec(), setlen: vec![0, 70, 4096], append: vec![100], patch: vec![(1, 3)], remove: true };
     let mut ops = data_ops(&a);
@@ -573,6 +674,37 @@ pub fn replay(path: &str) -> i32 {
                 }
                 1
             }
+        }
+        "sched" => {
+            let c: crate::e6::SchedCase = match serde_json::from_value(case["sched"].clone()) {
+                Ok(c) => c,
+                Err(e) => {
+                    eprintln!("bad sched case: {}", e);
+                    return 2;
+                }
+            };
+            let choices: Vec<usize> = serde_json::from_value(case["choices"].clone()).unwrap_or_default();
+            let image = crate::e6::image_for(c.version);
+            println!("replaying schedule {:?} of {:?}", choices, c);
+            let a = crate::e6::run_schedule(&c, &image, &choices);
+            let b = crate::e6::run_schedule(&c, &image, &choices);
+            if a.deadlock != b.deadlock || a.reader_results.iter().map(|r| r.len()).collect::<Vec<_>>() != b.reader_results.iter().map(|r| r.len()).collect::<Vec<_>>() {
+                eprintln!("replay is not deterministic");
+                return 2;
+            }
+            for p in &a.trace {
+                println!("  choice point: enabled {:?} chosen #{}", p.enabled, p.chosen);
+            }
+            if let Some(d) = &a.deadlock {
+                println!("VIOLATION-REPLAYED class=deadlock {}", d);
+                return 1;
+            }
+            if !a.panics.is_empty() {
+                println!("VIOLATION-REPLAYED class=panic {:?}", a.panics);
+                return 1;
+            }
+            println!("schedule completed: readers {:?}", a.reader_results);
+            0
         }
         "fault" => {
             let c: crate::e4::FaultCase = match serde_json::from_value(case["fault"].clone()) {
